@@ -39,4 +39,5 @@ def main(tier):
     chk.run("R-GUARDDEPS", C.guarddeps, cx.cpp, floor=2)
     chk.run("R-SUBALIGN", WN.subalign, cx.cpp, floor=2)
     chk.run("R-CLAMP", WN.clamp, cx.cpp, floor=3)
+    chk.run("R-ARRAYELEM", WN.arrayelem, cx.cpp, floor=6)
     return chk.finish()
